@@ -34,7 +34,7 @@ NA = {
 }
 
 PENDING = {k: "claimed in DESIGN.md (simulation target) but its check is not registered yet: engine under construction in this round"
-           for k in ("C15", "C16", "C17", "C21", "C24", "C25", "C29", "C34")}
+           for k in ("C16", "C17", "C24", "C25", "C29", "C34")}
 
 TRUST = ("trusted: Linux pipe/fork/waitpid semantics as modelled in sim/rt/vsim.cpp (4096-byte atomic writes, 64KiB capacity, EOF on "
          "last close), libstdc++ filebuf behaviour, the Python XML parser and the canonicalisation of findings; the reference of every "
@@ -42,6 +42,12 @@ TRUST = ("trusted: Linux pipe/fork/waitpid semantics as modelled in sim/rt/vsim.
          "the search samples - a clean batch is evidence, not proof")
 
 CHECKS = {
+ "C15": ("execsim", "exploration", "6.1",
+         "generated projects analysed by -j1 and by 2-5 runs under the seeded thread scheduler / process transport (schedules, select subsets/timeouts, waitpid lag, load-average stalls, payload chunking); findings, unmatchedSuppression reports and exit status compared",
+         "deterministic simulation: seeded thread schedules and worker-process transport, differential oracle vs -j1"),
+ "C21": ("execsim+crash", "fault_enumeration", "6.7",
+         "worker-death verdicts (signals, _exit codes) injected at the chunk boundaries of every worker's message stream, single and multiple victims; termination, exit status, internal error per victim and an exact prediction of the reported findings from the transport trace",
+         "deterministic simulation with fault injection: enumeration of worker death points in the process executor's transport, trace-based prediction oracle"),
  "C18": ("buildsim", "exploration", "6.4",
          "seeded histories of edits and runs (all three executors under seeded schedules) against one build dir; every run compared with a fresh no-build-dir run",
          "deterministic simulation: seeded edit/run histories against one build dir, differential oracle vs fresh run"),
